@@ -232,6 +232,17 @@ def static_compile(case, glyphsets=True):
     try:
         if flavor == "cff":
             ret["outline"] = project.cff_outlines(f2)
+            if "CFF " in f2:
+                # the advance each charstring itself declares (nominalWidthX + operand, or defaultWidthX when omitted)
+                from fontTools.pens.basePen import NullPen
+
+                top = f2["CFF "].cff.topDictIndex[0]
+                cw = {}
+                for n_ in f2.getGlyphOrder():
+                    cs_ = top.CharStrings[n_]
+                    cs_.draw(NullPen())
+                    cw[n_] = int(cs_.width)
+                ret["cffAdv"] = cw
         else:
             ret["glyf"] = project.glyf_glyphs(f2)
             if rec["opts"]["convertCubics"]:
